@@ -45,7 +45,12 @@ func zzC04Inv(s *MemoryStore, tag string) {
 	}
 }
 
-func ZZ_C04_store_step() {
+// ZZ_C04_store_step: all six operations. ZZ_C08_store_step: the two revocation operations (what the
+// revocation endpoint and the replay / reuse branches call).
+func ZZ_C04_store_step() { zzStoreStep([]int{0, 1, 2, 3, 4, 5}) }
+func ZZ_C08_store_step() { zzStoreStep([]int{0, 1}) }
+
+func zzStoreStep(ops []int) {
 	ctx := context.Background()
 	s := NewMemoryStore()
 	maxN := 2
@@ -129,7 +134,7 @@ func ZZ_C04_store_step() {
 		}
 	}
 
-	op := zz.Choice("op", 6)
+	op := ops[zz.Choice("op", len(ops))]
 	switch op {
 	case 0:
 		err := s.RevokeRefreshToken(ctx, x)
@@ -204,4 +209,77 @@ func ZZ_C04_store_step() {
 		zz.Cover("step:delete", true)
 	}
 	zzC04Inv(s, "post")
+}
+
+// ZZ_C01_store_step: the authorization-code table. One operation from an arbitrary table of up to three
+// records (symbolic signatures and activity flags): a spent code stays in the table as a tombstone (that is
+// what lets the token endpoint recognise a replay), whatever else is created, read or invalidated.
+func ZZ_C01_store_step() {
+	ctx := context.Background()
+	s := NewMemoryStore()
+	maxN := 2
+	if zz.Thorough() {
+		maxN = 3
+	}
+	type rec struct {
+		sig, req string
+		active   bool
+	}
+	var pre []rec
+	for i, n := 0, zz.Choice("n", maxN+1); i < n; i++ {
+		r := rec{sig: zz.String("sig", 2), req: zz.String("req", 2), active: zz.Bool("active")}
+		zz.Assume(r.req != "")
+		for _, o := range pre {
+			zz.Assume(o.sig != r.sig)
+		}
+		pre = append(pre, r)
+		s.AuthorizeCodes[r.sig] = StoreAuthorizeCode{active: r.active, Requester: &fosite.Request{ID: r.req}}
+	}
+	x := zz.String("x", 2)
+	var hit *rec
+	for i := range pre {
+		if pre[i].sig == x {
+			hit = &pre[i]
+		}
+	}
+	frame := func(tag string) {
+		for _, r := range pre {
+			if r.sig == x {
+				continue
+			}
+			got, ok := s.AuthorizeCodes[r.sig]
+			zz.Assert(ok && got.active == r.active && got.GetID() == r.req, tag+": every other code record (spent ones included) is unchanged")
+		}
+	}
+	switch zz.Choice("op", 3) {
+	case 0:
+		zz.Assume(hit == nil) // a freshly minted code (C06: minted codes do not repeat)
+		err := s.CreateAuthorizeCodeSession(ctx, x, &fosite.Request{ID: "new"})
+		got, ok := s.AuthorizeCodes[x]
+		zz.Assert(err == nil && ok && got.active && got.GetID() == "new", "CreateAuthorizeCodeSession: the new record is active")
+		frame("CreateAuthorizeCodeSession")
+		zz.Cover("code-step:create", true)
+	case 1:
+		got, err := s.GetAuthorizeCodeSession(ctx, x, nil)
+		switch {
+		case hit == nil:
+			zz.Assert(errors.Is(err, fosite.ErrNotFound), "GetAuthorizeCodeSession: absent => not found")
+		case !hit.active:
+			zz.Assert(errors.Is(err, fosite.ErrInvalidatedAuthorizeCode) && got != nil && got.GetID() == hit.req, "GetAuthorizeCodeSession: spent => ErrInvalidatedAuthorizeCode together with the request")
+			zz.Cover("code-step:get-spent", true)
+		default:
+			zz.Assert(err == nil && got != nil && got.GetID() == hit.req, "GetAuthorizeCodeSession: active => the request")
+		}
+		frame("GetAuthorizeCodeSession")
+	case 2:
+		err := s.InvalidateAuthorizeCodeSession(ctx, x)
+		if hit == nil {
+			zz.Assert(errors.Is(err, fosite.ErrNotFound), "InvalidateAuthorizeCodeSession: absent => not found")
+		} else {
+			got, ok := s.AuthorizeCodes[x]
+			zz.Assert(err == nil && ok && !got.active && got.GetID() == hit.req, "InvalidateAuthorizeCodeSession: the record stays, inactive")
+			zz.Cover("code-step:invalidate", true)
+		}
+		frame("InvalidateAuthorizeCodeSession")
+	}
 }
